@@ -12,14 +12,14 @@ if os.path.exists(os.path.join(wt, 'NOTES.md')):
 r = subprocess.run(['/verif/tools/eval_seed.py', os.path.join(d, 'patch.diff')], capture_output=True, text=True)
 fired = json.loads(r.stdout.strip().splitlines()[-1]) if r.stdout.strip() else {}
 confirm = []
-for logf in ('/tmp/wt/confirm3.log', '/tmp/wt/confirm4.log'):
+for logf in ('/tmp/wt/confirm3.log', '/tmp/wt/confirm4.log', '/tmp/wt/confirm5.log', '/tmp/wt/confirm6.log'):
     if os.path.exists(logf):
         for part in open(logf).read().split('=== ')[1:]:
             if part.split('\n')[0].strip() == '%s %s' % (os.path.basename(wt), x):
                 confirm = part.strip().splitlines()
 meta = {
     'id': sid, 'breaks_property': prop, 'also_breaks': also, 'what': what, 'needs_to_manifest': needs,
-    'origin': 'written by an independent sub-agent from the property text alone (no access to /verif); third round: two changes per property, earlier changes excluded',
+    'origin': 'written by an independent sub-agent from the property text alone (no access to /verif); later rounds: two changes per property, earlier changes excluded',
     'confirmed': {'how': 'tools/confirm_seed2.sh in the scratch worktree: apply patch, cargo build --offline, existing suite (lib, codegen, doc) with the change, demo with and without the change', 'log': confirm},
     'checks_that_fire': fired,
     'caught_by_own_property_check': prop in fired,
